@@ -13,6 +13,7 @@ from mygrad import nnet as _nn
 from mygrad.nnet import activations as _act
 
 SPECS = {}
+DOMAIN_CHECKS = True   # generators for forward-parity workloads switch domain predicates off
 
 
 class Spec:
@@ -22,7 +23,7 @@ class Spec:
         SPECS[name] = self
 
     def in_domain(self, *a, **k):
-        if self.dom is None:
+        if self.dom is None or not DOMAIN_CHECKS:
             return True
         try:
             with np.errstate(all="ignore"):
